@@ -403,3 +403,49 @@ func WaitQuiet(l *evlog.Log, quiet, max time.Duration, ignore func(evlog.Rec) bo
 func VbUUID(v uint64) gocbcore.VbUUID { return gocbcore.VbUUID(v) }
 
 func Sprintf(f string, a ...any) string { return fmt.Sprintf(f, a...) }
+
+// WrapMetadata records Save/Load calls of a real back end (file, couchbase) without changing them.
+type WrapMetadata struct {
+	Inner interface {
+		Save(state map[uint16]*models.CheckpointDocument, dirtyOffsets map[uint16]bool, bucketUUID string) error
+		Load(vbIds []uint16, bucketUUID string) (*wrapper.ConcurrentSwissMap[uint16, *models.CheckpointDocument], bool, error)
+		Clear(vbIds []uint16) error
+	}
+	Log *evlog.Log
+	mu  sync.Mutex
+	n   int
+}
+
+func (w *WrapMetadata) Save(state map[uint16]*models.CheckpointDocument, dirty map[uint16]bool, b string) error {
+	w.mu.Lock()
+	w.n++
+	n := w.n
+	w.mu.Unlock()
+	w.Log.Add(evlog.Rec{K: "md.save.call", VB: -1, A: uint64(n)})
+	err := w.Inner.Save(state, dirty, b)
+	es := ""
+	if err != nil {
+		es = err.Error()
+	} else {
+		for vb, d := range state {
+			if dirty[vb] && d != nil && d.Checkpoint != nil {
+				var ss, se uint64
+				if d.Checkpoint.Snapshot != nil {
+					ss, se = d.Checkpoint.Snapshot.StartSeqNo, d.Checkpoint.Snapshot.EndSeqNo
+				}
+				w.Log.Add(evlog.Rec{K: "md.write", VB: int(vb), Seq: d.Checkpoint.SeqNo, B: ss, C: se, D: d.Checkpoint.VbUUID, A: uint64(n)})
+			}
+		}
+	}
+	w.Log.Add(evlog.Rec{K: "md.save.ret", VB: -1, A: uint64(n), S: es})
+	return err
+}
+
+func (w *WrapMetadata) Load(vbIds []uint16, b string) (*wrapper.ConcurrentSwissMap[uint16, *models.CheckpointDocument], bool, error) {
+	w.Log.Add(evlog.Rec{K: "md.load.call", VB: -1, A: uint64(len(vbIds))})
+	st, ex, err := w.Inner.Load(vbIds, b)
+	w.Log.Add(evlog.Rec{K: "md.load.ret", VB: -1})
+	return st, ex, err
+}
+
+func (w *WrapMetadata) Clear(vbIds []uint16) error { return w.Inner.Clear(vbIds) }
